@@ -4,6 +4,7 @@ import (
 	"context"
 	"errors"
 	"fmt"
+	"sort"
 	"strings"
 	"time"
 
@@ -37,6 +38,62 @@ type Pet struct {
 	Company   Company
 	DeletedAt gorm.DeletedAt
 }
+
+// Owner and its children: has-many Dogs (soft delete) with a nested has-one Toy, has-one Profile,
+// many2many Langs — for handles that select/omit associations and for writing finishers.
+type Owner struct {
+	ID      uint
+	Name    string
+	Dogs    []Dog
+	Profile Profile
+	Langs   []Lang `gorm:"many2many:owner_langs"`
+}
+
+type Dog struct {
+	ID        uint
+	OwnerID   uint
+	Name      string
+	Toy       Toy
+	DeletedAt gorm.DeletedAt
+}
+
+type Toy struct {
+	ID    uint
+	DogID uint
+	Name  string
+}
+
+type Profile struct {
+	ID      uint
+	OwnerID uint
+	Bio     string
+}
+
+type Lang struct {
+	ID   uint
+	Code string
+}
+
+const assocSchemaSQL = `
+CREATE TABLE owners (id integer primary key autoincrement, name text);
+CREATE TABLE dogs (id integer primary key autoincrement, owner_id integer, name text, deleted_at datetime);
+CREATE TABLE toys (id integer primary key autoincrement, dog_id integer, name text);
+CREATE TABLE profiles (id integer primary key autoincrement, owner_id integer, bio text);
+CREATE TABLE langs (id integer primary key autoincrement, code text);
+CREATE TABLE owner_langs (owner_id integer, lang_id integer, primary key (owner_id, lang_id));
+`
+
+// reseeded before every history that writes
+const assocSeedSQL = `
+DELETE FROM owners; DELETE FROM dogs; DELETE FROM toys; DELETE FROM profiles; DELETE FROM langs; DELETE FROM owner_langs;
+DELETE FROM sqlite_sequence WHERE name IN ('owners','dogs','toys','profiles','langs');
+INSERT INTO owners (id,name) VALUES (1,'o1'),(2,'o2'),(3,'o3');
+INSERT INTO dogs (id,owner_id,name,deleted_at) VALUES (1,1,'d1',NULL),(2,1,'d2',NULL),(3,2,'d3',NULL),(4,2,'d4',NULL),(5,3,'d5',NULL);
+INSERT INTO toys (id,dog_id,name) VALUES (1,1,'t1'),(2,2,'t2'),(3,3,'t3'),(4,4,'t4'),(5,5,'t5');
+INSERT INTO profiles (id,owner_id,bio) VALUES (1,1,'b1'),(2,2,'b2'),(3,3,'b3');
+INSERT INTO langs (id,code) VALUES (1,'go'),(2,'sql');
+INSERT INTO owner_langs (owner_id,lang_id) VALUES (1,1),(1,2),(2,1),(3,2);
+`
 
 const schemaSQL = `
 CREATE TABLE pets (id integer primary key autoincrement, pet_name text, pet_age integer, company_id integer, deleted_at datetime);
@@ -98,6 +155,9 @@ func (badExpr) Build(b clause.Builder) {
 	b.WriteString("1 = 1")
 	b.AddError(errors.New("c06: expression cannot be built"))
 }
+
+func exprAge() clause.Expression  { return clause.Expr{SQL: "age > ?", Vars: []interface{}{40}} }
+func exprName() clause.Expression { return clause.Expr{SQL: "name = ?", Vars: []interface{}{"w"}} }
 
 func group(c *actx) *gorm.DB       { return c.root.Where("ga = ?", 1).Or("gb = ?", 2) }
 func groupOrOnly(c *actx) *gorm.DB { return c.root.Or("gc = ?", 3) }
@@ -247,6 +307,49 @@ var ops = []op{
 	{Label: `Set("c06:k","v2")`, Kind: "SETTINGS", Tier: tBlock, Apply: func(db *gorm.DB, c *actx) *gorm.DB { return db.Set(settingKey, "v2") }},
 	{Label: `InstanceSet("c06:k","i1")`, Kind: "SETTINGS", Tier: tBlock, Apply: func(db *gorm.DB, c *actx) *gorm.DB { return db.InstanceSet(settingKey, "i1") }},
 
+	// associations selected / omitted by the handle (they steer what writing finishers touch)
+	{Label: `Select("Dogs")`, Kind: "SELECT", Tier: tBlock, Apply: func(db *gorm.DB, c *actx) *gorm.DB { return db.Select("Dogs") }},
+	{Label: `Select("Dogs","Dogs.Toy")`, Kind: "SELECT", Tier: tBlock, Apply: func(db *gorm.DB, c *actx) *gorm.DB { return db.Select("Dogs", "Dogs.Toy") }},
+	{Label: `Select("Name","Dogs","Dogs.Toy","Profile")`, Kind: "SELECT", Tier: tBlock, Apply: func(db *gorm.DB, c *actx) *gorm.DB {
+		return db.Select("Name", "Dogs", "Dogs.Toy", "Profile")
+	}},
+	{Label: `Select(clause.Associations)`, Kind: "SELECT", Tier: tBlock, Apply: func(db *gorm.DB, c *actx) *gorm.DB { return db.Select(clause.Associations) }},
+	{Label: `Select(clause.Associations,"Dogs.Toy")`, Kind: "SELECT", Tier: tBlock, Apply: func(db *gorm.DB, c *actx) *gorm.DB {
+		return db.Select(clause.Associations, "Dogs.Toy")
+	}},
+	{Label: `Select("Profile","Langs")`, Kind: "SELECT", Tier: tBlock, Apply: func(db *gorm.DB, c *actx) *gorm.DB { return db.Select("Profile", "Langs") }},
+	{Label: `Omit("Dogs.Toy")`, Kind: "OMIT", Tier: tBlock, Apply: func(db *gorm.DB, c *actx) *gorm.DB { return db.Omit("Dogs.Toy") }},
+	{Label: `Omit("Langs","Profile")`, Kind: "OMIT", Tier: tBlock, Apply: func(db *gorm.DB, c *actx) *gorm.DB { return db.Omit("Langs", "Profile") }},
+	{Label: `Omit(clause.Associations)`, Kind: "OMIT", Tier: tBlock, Apply: func(db *gorm.DB, c *actx) *gorm.DB { return db.Omit(clause.Associations) }},
+	{Label: `Where("name <> ?","zz")`, Kind: "WHERE", Tier: tBlock, Apply: func(db *gorm.DB, c *actx) *gorm.DB { return db.Where("name <> ?", "zz") }},
+
+	// conditions given as clause.Or / clause.And expressions, and the handle as the SOLE group condition of a
+	// chain that starts at the Open handle
+	{Label: `Where(clause.Or(age > 40),clause.Expr(name = w))`, Kind: "WHERE", Tier: tBlock, Apply: func(db *gorm.DB, c *actx) *gorm.DB {
+		return db.Where(clause.Or(exprAge()), exprName())
+	}},
+	{Label: `Where(clause.And(clause.Or(age > 40),name = w))`, Kind: "WHERE", Tier: tBlock, Apply: func(db *gorm.DB, c *actx) *gorm.DB {
+		return db.Where(clause.And(clause.Or(exprAge()), exprName()))
+	}},
+	{Label: `Or(clause.Or(age > 40,name = w))`, Kind: "WHERE", Tier: tBlock, IsOr: true, Apply: func(db *gorm.DB, c *actx) *gorm.DB {
+		return db.Or(clause.Or(exprAge(), exprName()))
+	}},
+	{Label: `Where(clause.Or(age > 40),clause.Or(name = w),clause.Expr(id > 0))`, Kind: "WHERE", Tier: tBlock, Apply: func(db *gorm.DB, c *actx) *gorm.DB {
+		return db.Where(clause.Or(exprAge()), clause.Or(exprName()), clause.Expr{SQL: "id > ?", Vars: []interface{}{0}})
+	}},
+	{Label: `<Open handle>.Unscoped().Where(<parent handle>)`, Kind: "WHERE", Tier: tBlock, UsesH: true, Apply: func(db *gorm.DB, c *actx) *gorm.DB {
+		return c.root.Unscoped().Where(c.parent)
+	}},
+	{Label: `<Open handle>.Model(&Company{}).Where(<parent handle>)`, Kind: "WHERE", Tier: tBlock, UsesH: true, IsModel: true, Apply: func(db *gorm.DB, c *actx) *gorm.DB {
+		return c.root.Model(&Company{}).Where(c.parent)
+	}},
+	{Label: `<Open handle>.Where(<parent handle>)`, Kind: "WHERE", Tier: tBlock, UsesH: true, Apply: func(db *gorm.DB, c *actx) *gorm.DB {
+		return c.root.Where(c.parent)
+	}},
+	{Label: `<Open handle>.Unscoped().Not(<parent handle>)`, Kind: "WHERE", Tier: tBlock, UsesH: true, Apply: func(db *gorm.DB, c *actx) *gorm.DB {
+		return c.root.Unscoped().Not(c.parent)
+	}},
+
 	// a reusable handle made in the middle of a chain
 	{Label: `Session(&Session{})`, Kind: "SESSION", Tier: tCross, Apply: func(db *gorm.DB, c *actx) *gorm.DB { return db.Session(&gorm.Session{}) }},
 	{Label: `WithContext(ctx)`, Kind: "SESSION", Tier: tThor, Apply: func(db *gorm.DB, c *actx) *gorm.DB {
@@ -329,6 +432,93 @@ type finisher struct {
 	Run func(db *gorm.DB, hasModel bool, obs func(tx *gorm.DB)) *gorm.DB
 }
 
+// ownerGraph: an owner with one dog (and its toy), a profile and one language, all with explicit keys.
+func ownerGraph(owner, dog, toy, profile, lang uint, name string) *Owner {
+	return &Owner{ID: owner, Name: name,
+		Dogs:    []Dog{{ID: dog, OwnerID: owner, Name: name + "-dog", Toy: Toy{ID: toy, DogID: dog, Name: name + "-toy"}}},
+		Profile: Profile{ID: profile, OwnerID: owner, Bio: name + "-bio"},
+		Langs:   []Lang{{ID: lang, Code: name + "-lang"}}}
+}
+
+// stateOf renders the exported builder state of a handle's statement without executing anything.
+func stateOf(db *gorm.DB) string {
+	st := db.Statement
+	var sb strings.Builder
+	sb.WriteString("selects=[")
+	sb.WriteString(strings.Join(st.Selects, ","))
+	sb.WriteString("] omits=[")
+	sb.WriteString(strings.Join(st.Omits, ","))
+	sb.WriteString("] table=")
+	sb.WriteString(st.Table)
+	if st.TableExpr != nil {
+		sb.WriteString(" tableExpr=")
+		sb.WriteString(st.TableExpr.SQL)
+		sb.WriteString(fmtVars(st.TableExpr.Vars))
+	}
+	if st.Distinct {
+		sb.WriteString(" distinct")
+	}
+	if st.Unscoped {
+		sb.WriteString(" unscoped")
+	}
+	if st.Model != nil {
+		fmt.Fprintf(&sb, " model=%T", st.Model)
+	}
+	fmt.Fprintf(&sb, " joins=%d", len(st.Joins))
+	if len(st.Preloads) > 0 {
+		keys := make([]string, 0, len(st.Preloads))
+		for k := range st.Preloads {
+			keys = append(keys, k)
+		}
+		sort.Strings(keys)
+		for _, k := range keys {
+			sb.WriteString(" preload:" + k + fmtVars(st.Preloads[k]))
+		}
+	}
+	if len(st.Clauses) > 0 {
+		keys := make([]string, 0, len(st.Clauses))
+		for k := range st.Clauses {
+			keys = append(keys, k)
+		}
+		sort.Strings(keys)
+		for _, k := range keys {
+			switch e := st.Clauses[k].Expression.(type) {
+			case clause.Limit:
+				if e.Limit != nil {
+					fmt.Fprintf(&sb, " LIMIT(%d,%d)", *e.Limit, e.Offset)
+				} else {
+					fmt.Fprintf(&sb, " LIMIT(nil,%d)", e.Offset)
+				}
+			case clause.Where:
+				fmt.Fprintf(&sb, " WHERE(%d:", len(e.Exprs))
+				for _, x := range e.Exprs {
+					fmt.Fprintf(&sb, "%T,", x)
+				}
+				sb.WriteString(")")
+			case clause.Returning:
+				fmt.Fprintf(&sb, " RETURNING(%d)", len(e.Columns))
+			case clause.OrderBy:
+				fmt.Fprintf(&sb, " ORDER(%d)", len(e.Columns))
+			default:
+				fmt.Fprintf(&sb, " %s:%T", k, e)
+			}
+		}
+	}
+	sb.WriteString(settingsObsStmt(db))
+	if db.Error != nil {
+		sb.WriteString(" err=" + db.Error.Error())
+	}
+	return sb.String()
+}
+
+func settingsObsStmt(db *gorm.DB) string {
+	out := ""
+	if v, ok := db.Statement.Settings.Load(settingKey); ok {
+		out += fmt.Sprintf(" set=%v", v)
+	}
+	return out
+}
+
 func withModel(db *gorm.DB, hasModel bool) *gorm.DB {
 	if hasModel {
 		return db
@@ -357,6 +547,17 @@ const (
 	fTransaction     // SQLite only: Transaction(func(tx) { tx.Find })
 	fAssocFind
 	fAssocCount
+	fState // passive: the exported builder state of the handle's Statement is read, nothing is executed
+	// writing finishers on the Owner graph; the two forks of a history use disjoint rows and explicit keys
+	fDelOwner1
+	fDelOwner2
+	fSaveOwner1
+	fSaveOwner2
+	fCreateOwnerA
+	fCreateOwnerB
+	fUpdatesOwner1
+	fUpdatesOwner2
+	fFindOwners
 	fFindPets // the same handle used with another model
 	fCountPets
 	fCreatePet // DryRun only
@@ -506,6 +707,56 @@ var finishers = []finisher{
 		obs(&gorm.DB{Config: db.Config, Error: a.Error, RowsAffected: n, Statement: &gorm.Statement{}})
 		return nil
 	}},
+	fState: {Label: "<read Statement.Selects/Omits/Table/... of the handle>", Dry: true, Real: true},
+	fDelOwner1: {Label: "Delete(&Owner{ID:1})", Dry: true, Real: true, Run: func(db *gorm.DB, hm bool, obs func(*gorm.DB)) *gorm.DB {
+		tx := db.Delete(&Owner{ID: 1})
+		obs(tx)
+		return tx
+	}},
+	fDelOwner2: {Label: "Delete(&Owner{ID:2})", Dry: true, Real: true, Run: func(db *gorm.DB, hm bool, obs func(*gorm.DB)) *gorm.DB {
+		tx := db.Delete(&Owner{ID: 2})
+		obs(tx)
+		return tx
+	}},
+	fSaveOwner1: {Label: "Save(&Owner{ID:1 with dog 1, toy 1, profile 1, lang 2})", Dry: true, Real: true, Run: func(db *gorm.DB, hm bool, obs func(*gorm.DB)) *gorm.DB {
+		tx := db.Save(ownerGraph(1, 1, 1, 1, 2, "s1"))
+		obs(tx)
+		return tx
+	}},
+	fSaveOwner2: {Label: "Save(&Owner{ID:2 with dog 3, toy 3, profile 2, lang 1})", Dry: true, Real: true, Run: func(db *gorm.DB, hm bool, obs func(*gorm.DB)) *gorm.DB {
+		tx := db.Save(ownerGraph(2, 3, 3, 2, 1, "s2"))
+		obs(tx)
+		return tx
+	}},
+	fCreateOwnerA: {Label: "Create(&Owner{ID:101 with dog 101, toy 101, profile 101, lang 101})", Dry: true, Real: true, Run: func(db *gorm.DB, hm bool, obs func(*gorm.DB)) *gorm.DB {
+		tx := db.Create(ownerGraph(101, 101, 101, 101, 101, "ca"))
+		obs(tx)
+		return tx
+	}},
+	fCreateOwnerB: {Label: "Create(&Owner{ID:201 with dog 201, toy 201, profile 201, lang 201})", Dry: true, Real: true, Run: func(db *gorm.DB, hm bool, obs func(*gorm.DB)) *gorm.DB {
+		tx := db.Create(ownerGraph(201, 201, 201, 201, 201, "cb"))
+		obs(tx)
+		return tx
+	}},
+	fUpdatesOwner1: {Label: "Model(&Owner{ID:1}).Updates(Owner{Name,Dogs,Profile})", Dry: true, Real: true, Run: func(db *gorm.DB, hm bool, obs func(*gorm.DB)) *gorm.DB {
+		g := ownerGraph(1, 2, 2, 1, 1, "u1")
+		g.ID = 0
+		tx := db.Model(&Owner{ID: 1}).Updates(*g)
+		obs(tx)
+		return tx
+	}},
+	fUpdatesOwner2: {Label: "Model(&Owner{ID:2}).Updates(Owner{Name,Dogs,Profile})", Dry: true, Real: true, Run: func(db *gorm.DB, hm bool, obs func(*gorm.DB)) *gorm.DB {
+		g := ownerGraph(2, 4, 4, 2, 2, "u2")
+		g.ID = 0
+		tx := db.Model(&Owner{ID: 2}).Updates(*g)
+		obs(tx)
+		return tx
+	}},
+	fFindOwners: {Label: "Find(&[]Owner{})", Dry: true, Real: true, Run: func(db *gorm.DB, hm bool, obs func(*gorm.DB)) *gorm.DB {
+		tx := db.Find(&[]Owner{})
+		obs(tx)
+		return tx
+	}},
 	fFindPets: {Label: "Find(&[]Pet{})", Dry: true, Real: true, Run: func(db *gorm.DB, hm bool, obs func(*gorm.DB)) *gorm.DB {
 		tx := db.Find(&[]Pet{})
 		obs(tx)
@@ -564,8 +815,8 @@ var dryHandleFins = []int{fFind, fFirst, fCount, fUpdate, fDelete, fCreate, fTak
 var realHandleFins = []int{fFind, fFirst, fCount, fTake, fLast, fPluck, fScan, fFirstOrInit, fRows, fRow, fFindInBatches, fTransaction, fAssocFind, fAssocCount, fFindPets}
 
 // probe finishers executed directly on reusable handles
-var dryProbes = []int{fFind, fUpdate, fCreate}
-var realProbes = []int{fFind}
+var dryProbes = []int{fState, fFind, fUpdate, fCreate}
+var realProbes = []int{fState, fFind}
 
 // ---------------------------------------------------------------------------
 // observation formatting
